@@ -373,6 +373,18 @@ func Run(args []string) {
 		x.addPair(x.good[r.Intn(len(x.good))], x.good[r.Intn(len(x.good))])
 	}
 	x.flushPairs()
+	// every spelling of zero (incl. negative zero with fractional / exponent parts) against the plain ones: C10 says
+	// negative zero equals zero whatever its spelling
+	x.stream = "zero_spellings"
+	for _, z := range exhGood {
+		if ex := parseExact(z); ex != nil && ex.val.Sign() == 0 {
+			for _, w := range []string{"0", "-0", "0.0", "-0.00", "0e0"} {
+				x.addPair(z, w)
+				x.addPair(w, z)
+			}
+		}
+	}
+	x.flushPairs()
 	x.stream = "sample_all_pairs"
 	smp := make([]string, 0, sample)
 	for _, i := range r.Perm(len(exhGood)) {
